@@ -49,6 +49,23 @@ CHECKS.update({
 })
 
 
+E3 = "E3 simwasi: wasi/wasi.c + generated 'wasihost' forwarder module (translated by the current translator) in a forked child per run on a tmpfs tree; reference = the same POSIX operations on a mirror tree; simulated clock/entropy/exit/thread scheduling; fault points at open/readv/writev/lseek/opendir/readdir; clang ASan + memory UBSan"
+CHECKS.update({
+ "C12": dict(engine="simwasi", cat="exploration", tech="deterministic simulation: seeded WASI call histories with injected short transfers/EINTR/EIO/ENOSPC/lseek failures, checked operation-by-operation against the real kernel driven directly on a mirror tree (reference model)",
+   text="Histories of path_open/fd_write/fd_pwrite/fd_read/fd_pread/fd_seek/fd_tell/fd_filestat_get/fd_close through the exact C ABI generated code uses, in both ABI name spaces; after every operation errno, counts, 64-bit offsets, filestat fields, delivered bytes and the native file position must equal those of the corresponding POSIX call on the mirror, and the trees must be equal at the end. Under an injected fault the operation may report the fault or the short count, never other data or a moved position after positional I/O.",
+   note="reference is the Linux kernel (pwritev/preadv/lseek/fstat); O_APPEND+pwrite, IOV_MAX and error precedence are excluded as POSIX-ambiguous", ref="5/C12"),
+ "C13": dict(engine="simwasi", cat="exploration", tech="deterministic simulation: seeded descriptor-churn histories (open/close storms, double close, closed and never-issued numbers in every implemented call of both ABIs) with EMFILE injection, descriptor-table model + host-call log + ASan as oracles",
+   text="A model of the descriptor table (live set, pre-opens, stdio) decides: path_open never returns a live number, dead numbers give EBADF in all 23 implemented descriptor-taking calls and reach no host call, pre-opens report their registered path, descriptors 1/2/0 reach host fds 1/2/0; AddressSanitizer reports (double free, use after free of the descriptor path) are violations of this property.",
+   note="unimplemented (ENOSYS) calls are not swept; directory-taking calls on descriptors 0-2 are not generated", ref="5/C13"),
+ "C14": dict(engine="simwasi", cat="exploration", tech="deterministic simulation: seeded path/readdir histories with DT_UNKNOWN buggify and opendir/readdir errors; tree-effect oracle against the mirror tree after every operation, host-path seam check, readdir listing protocol rules",
+   text="Create/remove directory, unlink, rename, symlink, readlink, stat with relative/absolute/empty/over-long (around and beyond PATH_MAX) non-NUL-terminated guest paths: errno and the whole tree must equal the mirror after each call, rejected paths change nothing and reach no host call, ASan guards the PATH_MAX buffers. fd_readdir listings with buffers from 24 bytes must deliver every entry exactly once with correct d_next/d_ino/d_namlen/d_type, resume from any returned cookie and restart at cookie 0.",
+   note="paths whose resolved length is within 2 bytes below PATH_MAX are not generated; directory descriptors opened before a rename/rmdir are not judged afterwards", ref="5/C14"),
+ "C15": dict(engine="simwasi", cat="exploration", tech="deterministic simulation: simulated clock and entropy source, recorded exit, seeded scheduler over concurrent thread-spawn callers with thread-create failures",
+   text="args/environ vectors of arbitrary bytes at unaligned addresses must be reproduced exactly; clock_time_get must store sec*1e9+nsec of the simulated clock (seconds up to 2^33, nsec up to 999999999), stay monotonic, reject unknown ids with EINVAL and translate injected errors; random_get must succeed for 0..2^20 bytes and leave exactly the supplied entropy in exactly the requested range; proc_exit must end the process with the status and no later operation; 1-4 simulated threads spawn concurrently: distinct positive ids, wasi_thread_start once per spawn with that id on the shared memory, negative result without the export or on injected create failure.",
+   note="realtime clock jumps are not injected; thread-spawn schedules are sequentially consistent interleavings", ref="5/C15"),
+})
+
+
 def main():
     checks = []
     for pid in sorted(CHECKS):
@@ -68,10 +85,6 @@ def main():
     na = [{"property_id": p, "reason": r} for p, r in NA]
     pending = {
       "C06": "not claimed yet: the multi-instance interleaving engine for instantiation state is not finished",
-      "C12": "not claimed yet: WASI simulation (E3) under construction",
-      "C13": "not claimed yet: WASI simulation (E3) under construction",
-      "C14": "not claimed yet: WASI simulation (E3) under construction",
-      "C15": "not claimed yet: WASI simulation (E3) under construction",
     }
     for p, r in sorted(pending.items()):
         if p not in claimed:
@@ -88,6 +101,7 @@ def main():
       },
       "engines": [
         {"name": "simrt", "path": "engines/simrt", "serves_properties": sorted(p for p in CHECKS if CHECKS[p]["engine"] == "simrt"), "kind_free_text": E1},
+        {"name": "simwasi", "path": "engines/simwasi", "serves_properties": sorted(p for p in CHECKS if CHECKS[p]["engine"] == "simwasi"), "kind_free_text": E3},
         {"name": "simxl", "path": "engines/simxl", "serves_properties": sorted(p for p in CHECKS if CHECKS[p]["engine"] == "simxl"), "kind_free_text": E2},
       ],
       "checks": checks,
